@@ -181,6 +181,7 @@ func examineJ(rep *Reporter, line string) {
 }
 
 func linesC12(lines []string, rep *Reporter) {
+	historyReplayLines(lines, rep)
 	for _, l := range lines {
 		examineJ(rep, l)
 	}
